@@ -440,6 +440,17 @@ HEADER = ("From Coq Require Import List String QArith Qcanon ZArith.\n"
           "Import ListNotations.\nOpen Scope string_scope.\n")
 
 
+NV = 9   # number of certified values requested for rejected candidates
+
+
+def parse_qlist(out):
+    m = re.search(r"=\s*\[([^\]]*)\]\s*:\s*list \(Z \* positive\)", out, re.S)
+    if not m:
+        return None
+    txt = re.sub(r"\((-\d+)\)", r"\1", m.group(1).replace("%Z", "").replace("%positive", ""))
+    return [F(int(a), int(b)) for a, b in re.findall(r"\(\s*(-?\d+)\s*,\s*(\d+)\s*\)", txt)]
+
+
 def synth_case(flat, pt, inst, cm):
     fp = core.flat_coq(flat_with_point(flat, full_point(pt, inst.get("symbols"), flat["variables"])))
     T = core.types_coq(flat["types"])
@@ -453,6 +464,9 @@ def synth_case(flat, pt, inst, cm):
     body += f"Definition fsp0 : list Qc := {P.lst([P.q_coq(F(x)) for x in inst.get('f_special', [])])}.\n"
     main = body + f"Eval vm_compute in [check_synth_any {cm} fp0 T0 Q0 {P.lst([P.q_coq(F(k)) for k in ks])} items0 fsp0 f0].\n"
     diag = body + f"Eval vm_compute in [check_types fp0 T0; forallb (check_item {cm} fp0 T0) items0].\n"
+    # certified values E[Q]_n (theorem C14_certified_values), independent of the candidate f
+    diag += (f"Eval vm_compute in (match synth_values {cm} fp0 T0 Q0 {P.q_coq(F(inst['k']))} items0 {NV} with "
+             f"Some vs => map qpair vs | None => [] end).\n")
     return main, diag
 
 
@@ -754,6 +768,8 @@ def run(ctx):
                     else:
                         job["why"] = sin.get("unsupported") or str(sin.get("error")) or "no joint system"
     # ---- Coq: oracle files and validator files together -----------------------------------
+    if os.environ.get("C14_NO_ORACLE"):   # debugging switch: exercise the certified-values path alone
+        oracle_jobs = {}
     okeys = list(oracle_jobs)
     for j, key in enumerate(okeys):
         job = oracle_jobs[key]
@@ -779,8 +795,17 @@ def run(ctx):
             raise RuntimeError("oracle self-check failed (compacted vs plain semantics)")
         exact[key] = rs[0]
 
-    # validator verdicts; a second round of files explains rejections (which part failed)
+    # validator verdicts; a second round of files explains rejections (which part failed) and
+    # retries oracle jobs that ran out of time at a small depth
     dfiles = []
+    for j, key in enumerate(okeys):
+        if key not in exact:
+            job = oracle_jobs[key]
+            ast_ = job["ast"]
+            extra = {v: val for v, val in job["extra"].items() if v not in init_vars(ast_)}
+            if extra:
+                ast_ = with_point(ast_, extra)
+            dfiles.append((f"orc2_{j}", oracle.moments_file(ast_, [dict(m) for m in job["mons"]], 3)))
     for job in pair_jobs + loop_jobs:
         if job.get("file"):
             okc, o = outs[job["file"]]
@@ -792,10 +817,19 @@ def run(ctx):
             if job["status"] != "accepted":
                 dfiles.append(("d_" + job["file"], job["diag"]))
     douts = lib.coq_run_many(ctx, dfiles, timeout=ctx.pick(120, 300)) if dfiles else {}
+    ctx.coverage["coq_files_second_round"] = len(dfiles)
+    for j, key in enumerate(okeys):
+        if f"orc2_{j}" in douts:
+            okc, o = douts[f"orc2_{j}"]
+            rs = oracle.parse_results(o) if okc else []
+            if len(rs) == 2 and len(rs[0]) == 4 and rs[0][:len(rs[1])] == rs[1]:
+                exact[key] = rs[0]
+                errs["oracle-retried-at-depth-3"] = errs.get("oracle-retried-at-depth-3", 0) + 1
     for job in pair_jobs + loop_jobs:
         if job.get("file") and ("d_" + job["file"]) in douts:
             okc, o = douts["d_" + job["file"]]
             job["parts"] = lib.parse_bool_list(o) if okc else None
+            job["certified"] = parse_qlist(o) if okc else None
 
     # ---- decide: (Q, f) pairs -----------------------------------------------------------------
     stat, lstat = {}, {}
@@ -822,6 +856,19 @@ def run(ctx):
                 if F(fv) != tv:
                     mm = (n, F(fv), tv)
                     break
+        cert = job.get("certified") or None
+        src = "reference semantics (path enumeration)"
+        if cert:
+            for n in range(min(len(cert), len(inst["f_values"]))):
+                fv = inst["f_values"][n]
+                if fv.startswith("~"):
+                    continue
+                if ex is not None and n < len(ex) and q_from_moments(inst["Q"], oracle_jobs[job["okey"]]["mons"], ex[n]) != cert[n]:
+                    raise RuntimeError(f"certified value and reference semantics disagree at n={n} for {e['name']} / {inst['Q_text']}")
+                if mm is None and F(fv) != cert[n]:
+                    mm = (n, F(fv), cert[n])
+                    src = "certified values (theorem C14_certified_values over the validated effective items)"
+                    break
         st = job["status"] + ("" if mm is None else "+mismatch") + ("" if ex is not None else "+no-oracle")
         stat[st] = stat.get(st, 0) + 1
         if job["status"] in ("accepted", "rejected", "coq-error"):
@@ -841,7 +888,7 @@ def run(ctx):
         if mm is not None:
             known = mm[0] >= 1 and job["status"] != "accepted" and "items" in inst and general_only_consistent(inst, e["N"])
             sig = KNOWN_SUM if known else f"closed-form-mismatch:{e['text']}:{job['mode']}:{inst['Q_text']}:{json.dumps(inst['point'], sort_keys=True)}"
-            new = ctx.violation(sig, dict(label, n=mm[0], polar_value=str(mm[1]), reference_value=str(mm[2]), validator=job["status"],
+            new = ctx.violation(sig, dict(label, n=mm[0], polar_value=str(mm[1]), reference_value=str(mm[2]), reference_source=src, validator=job["status"],
                                           validator_parts=bl, effective_items=[{k: it.get(k) for k in ("monomial", "sols")} for it in inst.get("items", [])]),
                                 f"{e['name']} [{job['mode']}]: Polar returns E[{inst['Q_text']}] = {inst['f_text']}; at n={mm[0]} this is {mm[1]}, "
                                 f"the exact value is {mm[2]} (initial values {inst['point']})\n{e['text']}")
